@@ -5,7 +5,7 @@ import ast
 
 from sa.astx import assigned_targets, call_name, dotted, find_calls, src, statements, walk_local
 from sa.effects import class_accesses
-from sa.props._lib_a import inlined_func, root_callers
+from sa.props._lib_a import Inliner, clone, inlined_func, real_func, root_callers
 from sa.selftest import Mutant, Silent
 
 PROPERTY = "C03"
@@ -30,6 +30,59 @@ def _is_self_attr(node, name):
 
 def _test_is(expr, text):
     return src(expr) == text
+
+
+def _split_default_callee(f):
+    """`c = A or _default` followed by the one call `c(args)` is read as `c = A` / `if c: c(args)` / `else: _default(args)`:
+    `A or B` yields A exactly when A is truthy, so this is the same evaluation, in the shape the branch rules ask about
+    (the canceller is called on the truthy branch, the fallback runs when there is none).  Returns the rewritten clone, or
+    None when the idiom does not occur (or the local has another use, in which case nothing is rewritten)."""
+    g = clone(f)
+    done = []
+
+    def visit(stmts):
+        for i, st in enumerate(stmts):
+            if (isinstance(st, ast.Assign) and len(st.targets) == 1 and isinstance(st.targets[0], ast.Name)
+                    and isinstance(st.value, ast.BoolOp) and isinstance(st.value.op, ast.Or) and len(st.value.values) == 2
+                    and isinstance(st.value.values[1], ast.Name)):
+                local, first, fallback = st.targets[0].id, st.value.values[0], st.value.values[1]
+                uses = [x for x in ast.walk(g) if isinstance(x, ast.Name) and x.id == local]
+                nxt = stmts[i + 1] if i + 1 < len(stmts) else None
+                if (len(uses) == 2 and isinstance(nxt, ast.Expr) and isinstance(nxt.value, ast.Call)
+                        and isinstance(nxt.value.func, ast.Name) and nxt.value.func.id == local):
+                    call = nxt.value
+                    other = clone(call)
+                    other.func = ast.copy_location(ast.Name(id=fallback.id, ctx=ast.Load()), call.func)
+                    stmts[i] = ast.copy_location(ast.Assign(targets=st.targets, value=first), st)
+                    stmts[i + 1] = ast.copy_location(ast.If(
+                        test=ast.copy_location(ast.Name(id=local, ctx=ast.Load()), st),
+                        body=[nxt], orelse=[ast.copy_location(ast.Expr(value=other), nxt)]), nxt)
+                    done.append(fallback.id)
+            for fld in ("body", "orelse", "finalbody"):
+                sub = getattr(stmts[i], fld, None)
+                if isinstance(sub, list) and sub and isinstance(sub[0], ast.stmt):
+                    visit(sub)
+            for h in getattr(stmts[i], "handlers", []) or []:
+                visit(h.body)
+
+    visit(g.body)
+    if not done:
+        return None
+    ast.fix_missing_locations(g)
+    return g, done
+
+
+def _cancel_func(ctx):
+    """Deferred.cancel with private helpers inlined; the default-callee idiom is split into its two branches first"""
+    split = _split_default_callee(real_func(ctx, DEFER, "Deferred.cancel"))
+    if split is None:
+        return inlined_func(ctx, DEFER, "Deferred.cancel")
+    g, names = split
+    inl = Inliner(ctx.mod(DEFER))
+    out = inl.function(g)
+    ctx.note(f"Deferred.cancel: `c = self._canceller or {names[0]}; c(...)` read as if/else on the canceller; "
+             f"private helpers read as if inlined: {', '.join(sorted(set(inl.inlined))) or '-'}")
+    return out
 
 
 def check(ctx):
@@ -126,7 +179,7 @@ def check(ctx):
 
     # ---- (c,d,e) cancel -----------------------------------------------------------------------
     ctx.func(DEFER, "Deferred.cancel")
-    f = inlined_func(ctx, DEFER, "Deferred.cancel")
+    f = _cancel_func(ctx)
     g = ctx.cfg(f)
     q = "twisted.internet.defer.Deferred.cancel"
     # canceller call sites: calls whose callee is a local bound from self._canceller, or self._canceller(...)
@@ -239,4 +292,20 @@ SILENT = [
            "            cancelFn = self._canceller\n            if cancelFn:\n                cancelFn(self)\n"),
     Silent("invert-branches", DEFER, "            if canceller:\n                canceller(self)\n            else:\n                # Arrange to eat the callback that will eventually be fired\n                # since there was no real canceller.\n                self._suppressAlreadyCalled = True\n",
            "            if not canceller:\n                self._suppressAlreadyCalled = True\n            else:\n                canceller(self)\n"),
+]
+_CANCEL_OLD = ("            canceller = self._canceller\n            if canceller:\n                canceller(self)\n            else:\n"
+               "                # Arrange to eat the callback that will eventually be fired\n                # since there was no real canceller.\n"
+               "                self._suppressAlreadyCalled = True\n")
+_CANCEL_DEFAULT = "            chosen = self._canceller or _noCanceller\n            chosen(self)\n"
+_CLASS_HEAD = "class Deferred(Awaitable[_SelfResultT]):"
+SILENT += [
+    Silent("fallback-canceller-function-chosen-with-or", DEFER, _CANCEL_OLD, _CANCEL_DEFAULT,
+           more=[(DEFER, _CLASS_HEAD, "def _noCanceller(d):\n    d._suppressAlreadyCalled = True\n\n\n" + _CLASS_HEAD)]),
+]
+MUTANTS += [
+    Mutant("fallback-canceller-function-does-not-arm-suppression", DEFER, _CANCEL_OLD, _CANCEL_DEFAULT,
+           more=[(DEFER, _CLASS_HEAD, "def _noCanceller(d):\n    pass\n\n\n" + _CLASS_HEAD)], expect_rule="cancel/suppress-armed"),
+    Mutant("fallback-canceller-chosen-with-or-but-suppression-armed-always", DEFER, _CANCEL_OLD,
+           _CANCEL_DEFAULT + "            self._suppressAlreadyCalled = True\n",
+           more=[(DEFER, _CLASS_HEAD, "def _noCanceller(d):\n    pass\n\n\n" + _CLASS_HEAD)], expect_rule="cancel/suppress-only-without-canceller"),
 ]
